@@ -420,6 +420,9 @@ class Engine:
         if isinstance(ty, TSeq) and isinstance(v.ty, TTuple) and all(e == ty.elem for e in v.ty.elems):
             items = [z3.Unit(v.ty.get(v.t, i)) for i in range(len(v.ty.elems))]
             return V(ty, z3.Concat(*items) if len(items) > 1 else (items[0] if items else z3.Empty(ty.sort())))
+        if isinstance(ty, TSeq) and isinstance(v.ty, TSeq) and isinstance(ty.elem, TRef) and isinstance(v.ty.elem, TRef) \
+                and ty.elem.nullable == v.ty.elem.nullable:
+            return V(ty, v.t)          # all references share one sort; the static class only guides lookups
         if isinstance(ty, TTuple) and isinstance(v.ty, TTuple) and len(ty.elems) == len(v.ty.elems):
             items = [self.coerce(V(a, v.ty.get(v.t, i)), b, st).t for i, (a, b) in enumerate(zip(v.ty.elems, ty.elems))]
             return V(ty, ty.mk(items))
